@@ -131,7 +131,7 @@ func runC19(s *core.Sim, tier string) RunInfo {
 			}
 			script := "fresh"
 			if !recent {
-				script = core.Pick(s.Tape, "head-script", []string{"fresh", "fresh", "error", "slow", "lower", "expired"})
+				script = core.Pick(s.Tape, "head-script", []string{"fresh", "fresh", "error", "slow", "lower", "expired", "expiring"})
 			}
 			netHead := w.NetHead()
 			w.G.HeadFault = func(k int, trusted *H) (*H, error, bool) {
@@ -142,6 +142,19 @@ func runC19(s *core.Sim, tier string) RunInfo {
 					if accepted > tailH {
 						return w.Ch.At(accepted - 1), nil, true
 					}
+				case "expiring":
+					// slow trusted peers serve a head that is still inside the trusting period when
+					// the request is sent but no longer when the answer arrives
+					for h := w.NetHead(); h > tailH; h-- {
+						x := w.Ch.At(h)
+						left := x.Time().Add(TP).Sub(now) // relative to when the request is sent
+						if left > 0 && left < 2500*time.Millisecond {
+							return x, nil, true
+						}
+						if left <= 0 {
+							break
+						}
+					}
 				case "expired":
 					// a head that is itself older than the trusting period
 					old := w.Ch.At(tailH)
@@ -151,7 +164,7 @@ func runC19(s *core.Sim, tier string) RunInfo {
 				}
 				return nil, nil, false
 			}
-			if script == "slow" {
+			if script == "slow" || script == "expiring" {
 				w.G.Cost = 3 * time.Second // beyond the syncer's head request timeout
 			}
 			gate := make(chan struct{})
@@ -259,7 +272,16 @@ func runC19(s *core.Sim, tier string) RunInfo {
 				if script == "expired" {
 					served = w.Ch.At(tailH)
 				}
-				servedExpired := time.Now().After(served.Time().Add(TP)) && now.After(served.Time().Add(TP))
+				last := headCalls[len(headCalls)-1]
+				if last.A != 0 {
+					served = w.Ch.At(last.A) // what the trusted peers actually answered with
+				}
+				// expiry is judged when the answer arrives (the getter's own timestamp of its reply)
+				arrival := time.Now().Add(-(s.Now() - last.At))
+				servedExpired := arrival.After(served.Time().Add(TP))
+				if servedExpired && !now.After(served.Time().Add(TP)) {
+					s.Probe("head-expired-in-flight")
+				}
 				for _, r := range results {
 					switch {
 					case script == "error":
